@@ -32,6 +32,7 @@ M0 == [calls |-> <<>>,        \* k -> call record (function with a growing domai
        stalled |-> {},        \* transport writes that are blocked because the peer stopped draining
        notices |-> {},        \* wire ids named by cancellation notices handed to the transport
        notifOk |-> {},        \* refs of notifications the transport accepted
+       respBegun |-> {},      \* request tags whose response has been handed to the transport
        usable |-> TRUE]       \* no Close, fault or reader error so far
 
 Get(f, k, d) == IF k \in DOMAIN f THEN f[k] ELSE d
@@ -76,6 +77,7 @@ OnCtxCancel(e) ==
 
 OnWrBegin(e) ==
   /\ m' = [m EXCEPT !.calls = IF e.kind = "call" /\ e.ref # "" THEN Put(m.calls, e.ref, [Call(e.ref) EXCEPT !.wire = e.id]) ELSE @,
+                    !.respBegun = IF e.kind = "resp" /\ e.ref # "" THEN @ \cup {e.ref} ELSE @,
                     !.notices = IF e.kind = "notif" /\ e.method = "notifications/cancelled" THEN @ \cup {e.cref} ELSE @]
   /\ Check(l, "C02.NoReplyToNotification", (e.kind = "resp" /\ m.ready) => Idn(e.id).deliv > 0)
   \* on a healthy connection (no Close, no fault: nothing is refused by the connection layer itself) a response
@@ -132,8 +134,16 @@ OnHCtxDone(e) ==
 
 OnHEnd(e) == m' = [m EXCEPT !.reqs = Put(m.reqs, e.r, [Req(e.r) EXCEPT !.ended = TRUE])]
 
+AnsweredBeforeClose ==
+  (m.ready /\ ~m.fault /\ m.stalled = {}) =>
+     \A r \in DOMAIN m.reqs : (m.reqs[r].kind = "call" /\ ~m.reqs[r].dup /\ Idn(m.reqs[r].id).deliv = 1 /\ m.reqs[r].started /\ m.reqs[r].ended)
+                                  => r \in m.respBegun
 OnTrClose(e) ==
   /\ Check(l, "C05.TransportClosedOnlyAfterHandlers", \A r \in DOMAIN m.reqs : m.reqs[r].started => m.reqs[r].ended)
+  \* graceful: a call whose handler ran to completion is answered - its response is handed to the transport before the
+  \* connection closes the transport (as long as no write has failed or is blocked: then nothing more can be promised)
+  /\ Check(l, "C05.AnsweredBeforeTransportClosed", AnsweredBeforeClose)
+  /\ Check(l, "C02.AnsweredBeforeTransportClosed", AnsweredBeforeClose)
   /\ m' = [m EXCEPT !.trClosed = TRUE, !.usable = FALSE]
 
 OnNotifyEnd(e) ==
